@@ -127,14 +127,14 @@ Definition urlparse (url : pystr) : res parsed :=
     Ok (mkParsed (scheme p) (netloc p) u prm (query p) (fragment p))
   else Ok p.
 
-(* _hostinfo: (hostname text, port text) *)
-Definition hostinfo (nl : pystr) : pystr * pystr :=
-  let hi := after_last 64 nl in
+(* _hostinfo: (hostname text, port text); hi is the text behind the last at-sign *)
+Definition hostinfo_hi (hi : pystr) : pystr * pystr :=
   match split1_c 91 hi with
   | Some (_, bracketed) =>
       (before_first 93 bracketed, after_first 58 (after_first 93 bracketed))
   | None => (before_first 58 hi, after_first 58 hi)
   end.
+Definition hostinfo (nl : pystr) : pystr * pystr := hostinfo_hi (after_last 64 nl).
 (* .hostname: None when empty; lower-cased up to a '%' (zone id) *)
 Definition hostname (p : parsed) : option pystr :=
   let h := fst (hostinfo (netloc p)) in
